@@ -153,6 +153,28 @@ def impl_sig(case):
         import zlib as _z
         C.warmup(G, lambda: sigma_separated(G, set(X), set(Y), set(Z)), layers=("directed", "bidirected"),
                  salt=_z.crc32(repr(sorted(case["g"].items())).encode()) | 1)
+    if C.warm_decide({"g": case["g"], "k": "isolated"}, 4) and Y:
+        # between two queries a node without edges is added: it is sigma-separated from everything, and the
+        # query about it must see it
+        W = ("isolated-extra", len(case["g"]["D"]))
+        try:
+            sigma_separated(G, set(X), set(Y), set(Z))
+        except Exception:
+            pass
+        try:
+            G.add_node(W)
+            try:
+                r_ = sigma_separated(G, {W}, set(Y), set(Z))
+                okW = r_ is True
+            except nx.NetworkXError as e_:
+                okW = "acyclic" in str(e_)        # (the guard of a cyclic acyclification is not about W)
+            except Exception:
+                okW = False
+            G.remove_node(W)
+        except Exception:
+            okW = True
+        if not okW:
+            return {"ans": "bad:query-about-a-node-added-between-two-queries", "swapped": None, "mutated": False}
     before = C.snapshot(G)
 
     def call(a, b):
